@@ -707,7 +707,36 @@ def c04(ctx):
     ctx.assumptions += ["syntactic validity = acceptance by the shipped parser (no TLA+ grammar of full Turtle)"]
 
 
+def c12(ctx):
+    binary = build()
+    tr = os.path.join(ctx.traces, "jsonld.ndjson")
+    n = 3000 if ctx.quick() else 60000
+    sv(binary, ["rt", "--family", "jsonld", "--n", n, "--seed", ctx.seed, "--out", tr], ctx=ctx, timeout=6000)
+    trace = rt_validate(ctx, tr, "jsonld")
+    ctx.samples += [{"config": [e["fmt"], e["pm"], e["indent"]], "in": show_quads(e["in"]), "document": uncps(e["text"])[:600]} for e in trace[40:900:400] if e["ev"] == "RT"]
+    ctx.rule = ("Trace_RoundTrip.tla: for every (dataset, options) the parse of the serializer's output must be isomorphic (Iso.tla, blank nodes scoped to the dataset) to the JSON-LD-expressible part of the input "
+                "(JsonLdExpressible: IRI/blank subjects and graph names, IRI predicates); a serializer/parser error or panic on expressible input is a violation. %d random datasets: default + named graphs (IRI and blank names), "
+                "blank nodes shared between graphs, rdf:first/rest chains well-formed / shared / branching / cyclic / typed rdf:List / split across graphs / headless, rdf:type with IRI and non-IRI objects, rdf:JSON, i18n and "
+                "compound-literal shapes; processing modes 1.0/1.1 x use_rdf_type x rdf_direction (same on both sides) x indentation; each input in a child process. distinct = (options, dataset)" % n)
+    ctx.assumptions += ["use_native_types excluded (lossy by specification)", "isomorphism judged by TLC (signature-pruned bijection search of Iso.tla)"]
+
+
+def c18(ctx):
+    binary = build()
+    tr = os.path.join(ctx.traces, "xml.ndjson")
+    n = 3000 if ctx.quick() else 60000
+    sv(binary, ["rt", "--family", "xml", "--n", n, "--seed", ctx.seed, "--out", tr], ctx=ctx, timeout=6000)
+    trace = rt_validate(ctx, tr, "xml")
+    ctx.samples += [{"config": [e["fmt"], e["indent"]], "in": show_quads(e["in"]), "document": uncps(e["text"])[:600]} for e in trace[40:900:400] if e["ev"] == "RT"]
+    ctx.rule = ("Trace_RoundTrip.tla: for every (graph, indentation 0..8) serialisation either fails with an error value or yields a document whose parse is isomorphic to the RDF/XML-expressible part of the graph "
+                "(XmlExpressible: predicate IRI splits into namespace + NCName); for graphs with QName-able predicates and XML-legal text (XmlChar) it must succeed; outputs for every indentation must agree. %d random graphs: "
+                "literals over markup characters, whitespace runs, leading/trailing newlines, non-BMP, language tags, arbitrary datatypes incl. rdf:XMLLiteral, blank subjects/objects, namespace split points; "
+                "each input in a child process. distinct = (indentation set, graph)" % n)
+
+
 FAMILIES = {
+    "C12": c12,
+    "C18": c18,
     "C04": c04,
     "C13": c13,
     "C14": c14,
